@@ -139,13 +139,14 @@ impl GenerateNewtype for AnyNewtype {
         _inner_type: &Self::InnerType,
         maybe_default_value: &Option<syn::Expr>,
         guard: &Guard<Self::Sanitizer, Self::Validator>,
-        _traits: &HashSet<Self::TypedTrait>,
+        traits: &HashSet<Self::TypedTrait>,
     ) -> TokenStream {
         let test_valid_default_value = gen_test_should_have_valid_default_value(
             type_name,
             generics,
             maybe_default_value,
             guard.has_validation(),
+            traits.contains(&AnyDeriveTrait::Default),
         );
 
         quote! {
